@@ -24,6 +24,7 @@ ASSUMPTIONS = ["controls whose sample covariance matrix has an entry below 1e-8 
 REQUIRED_COUNTERS = ["price_checks", "stddev_checks", "each_path_once_checks", "control_variate_checks", "cv_mean_invariance",
                      "cv_variance_checks", "vector_payoff_cases", "spot_statistics_cases"]
 MIN_NONTRIVIAL = {"quick": 100, "thorough": 1500}
+THOROUGH_ROUNDS = 20      # the thorough tier runs the generators this many times (different seeds)
 
 
 def gen_cases(tier, seed):
